@@ -40,11 +40,26 @@ tasks with its own label ("ADWIN|<family>|...") and its own counters ``fam_<fami
                      minimum window sizes are really passed);
     ADWINAccuracy: twins with every unusual parameter forwarded, labels in several containers,
     and a default-parameter twin on L = 192 agreement histories.
+Second batch of round-3 families:
+      val / valdev   scales 1e-9 ("nano"), 1e8 with a spread of the same size ("giga") and level 1e8
+                     with a spread of 5 ("lvl8");
+      feed           tuple, Series with a non-default index, DataFrame with an integer column label and a
+                     non-default row label, boolean observations, X accompanied by (ignored) y_true / y_pred;
+      reset          ``reset()`` called by the user between updates (during warm-up, right after a
+                     drift, twice in a row, deep inside an epoch): drift state / recommendation /
+                     samples_since_reset are initialised, the window and total_samples are not;
+      twin-lab       ADWINAccuracy on class labels that are not {0, 1}: float-coded labels of
+                     magnitude 1e-9 ... 1e8 (neighbouring classes closer than any isclose()
+                     tolerance), adjacent doubles / float32s, fractional and negative labels,
+                     float32 predictions against float64 targets, int against float, strings,
+                     booleans -- the indicator is 1{y_true == y_pred} on the values as received;
+      twin-reset     the ADWINAccuracy twin with reset() events.
 Tolerances of the new families scale with the conditioning of their data (see ``_tol``).
 """
 import itertools
 import math
 import os
+from fractions import Fraction
 
 import numpy as np
 import pandas as pd
@@ -59,8 +74,8 @@ from models.adwin import ADWINModel
 
 PROPERTY = "C03"
 # safety net only (wall seconds); sized for a heavily shared machine: on 16 free cores quick needs
-# ~30 s and thorough ~5 min.  VERIF_TIME_BUDGET=<seconds> overrides both.
-TIME_BUDGET = {"quick": 1800, "thorough": 3600}
+# ~45 s and thorough ~8 min (builders saw 10-20x that under load).  VERIF_TIME_BUDGET=<seconds> overrides both.
+TIME_BUDGET = {"quick": 1800, "thorough": 10800}
 if os.environ.get("VERIF_TIME_BUDGET"):
     TIME_BUDGET = {k: float(os.environ["VERIF_TIME_BUDGET"]) for k in TIME_BUDGET}
 
@@ -233,8 +248,16 @@ VALUE_ALPHABETS = {
     "u8": [100, 101, 105],  # uint8-typed: three samples sum past 255
     "i8": [-100, -99, -95],  # int8-typed: two samples sum below -128
     "i16": [10000, 10001, 10005],  # int16-typed: four samples sum past 32767
+    # second batch: the ends of the range 1e-9 ... 1e8
+    "nano": [1e-09, 3e-09, 7.5e-09],  # scale 1e-9 (statistics only, like "tiny")
+    "giga": [-260000000.7, 30000000.3, 270000000.9],  # scale AND spread 1e8, mixed signs (the additive term of eps_cut is negligible)
+    "lvl8": [100000000.1, 100000000.9, 100000005.3],  # level 1e8, spread ~5, non-dyadic
 }
 ALPHABETS.update(VALUE_ALPHABETS)
+# explicit reset() calls between updates ("R" is an event, not a value)
+RESET = "R"
+ALPHABETS["bR"] = [0, 1, RESET]
+ALPHABETS["tR"] = [0, 1, 5, RESET]
 
 EPS64 = 2.0 ** -52
 EPS32 = 2.0 ** -23
@@ -254,6 +277,11 @@ FEEDS = {
     "u8": ["a1u8", "u8"],
     "i8": ["a2i8", "i8"],
     "i16": ["a1i16", "i16"],
+    # second batch
+    # tuple, Series with index [5], X with (ignored) y_true / y_pred, DataFrame whose only column is labelled 3 (an
+    # integer that is not its position) with row label 2
+    "cont2": ["tup", "serix", "fy", "dfint", "l2", "np64", "a1"],
+    "bool": ["b", "npb", "a1b", "a2b", "l1b", "dfb"],  # boolean observations (a stream of hit / miss flags)
 }
 _NARROW = ("u8", "i8", "i16")
 _DTYPES = {"f32": np.float32, "i64": np.int64, "i32": np.int32, "u8": np.uint8, "i8": np.int8, "i16": np.int16}
@@ -279,6 +307,22 @@ def _wrap(kind, v):
         return pd.Series([float(v)]), float(v)
     if kind == "df":
         return pd.DataFrame({"x": [float(v)]}, index=[7]), float(v)
+    if kind == "tup":
+        return (float(v),), float(v)
+    if kind == "serix":
+        return pd.Series([float(v)], index=[5]), float(v)
+    if kind == "fy":
+        return float(v), float(v)  # step() adds y_true / y_pred, which ADWIN documents as not used
+    if kind == "dfint":
+        return pd.DataFrame({3: [float(v)]}, index=[2]), float(v)
+    if kind in ("b", "npb", "a1b", "a2b", "l1b", "dfb"):
+        if v not in (0, 1):
+            raise ValueError("value %r is not boolean" % (v,))
+        b = bool(v)
+        x = {"b": b, "npb": np.bool_(b), "a1b": np.array([b]), "a2b": np.array([[b]]), "l1b": [b]}.get(kind)
+        if kind == "dfb":
+            x = pd.DataFrame({"x": [b]})
+        return x, int(b)
     if kind == "i":
         return int(v), int(v)
     if kind == "l1i":
@@ -319,16 +363,14 @@ def _tol(alpha, L, feed=None):
       mean      abs 1e-12*S        variance  abs 1e-12*S*R  (+ the framework's relative 1e-9)
       decision  relative margin <= max(1e-9, 1e-12*S/R) is numerically undecidable (1e-12 ~ 20*L*eps).
     The mean is additionally held to relative 1e-12 (not 1e-9: at level 3e7 that would be 0.03 absolute).
-    float32-typed streams: the detector's running sums are float32 until the first cut (numpy scalar
-    arithmetic keeps the dtype of its input), so eps is 2^-23: relative 4*L*eps32 on mean and variance
-    (data are small dyadic numbers, conditioning 1), decisions within 1e-4 undecidable.
+    float32- (and integer-) typed streams get the same tolerances: the detector documents that its running
+    sums are kept in double precision whatever the dtype of the input (adwin.py::update; fix 27d654b), and the
+    model is fed the exact value of the float32 number.  (Before that repair the sums were float32 and this
+    family needed relative 4*L*2^-23; keeping that allowance would let the defect come back unnoticed.)
     """
     vals = [float(v) for v in ALPHABETS[alpha]]
     S = max(abs(v) for v in vals)
     R = max(vals) - min(vals)
-    if feed == "f32":
-        rel = 4 * L * EPS32
-        return {"mean": [rel, rel * S], "variance": [rel, rel * S * R], "tie": 1e-4}
     return {
         "mean": [1e-12, 1e-12 * S],
         "variance": [1e-9, 1e-12 * S * R],
@@ -341,7 +383,7 @@ class AdwinSystem(System):
 
     def init(self, cfg):
         p = cfg["params"]
-        return {"det": ADWIN(**p), "model": ADWINModel(**p), "W_obs": 0}
+        return {"det": ADWIN(**p), "model": ADWINModel(**p), "W_obs": 0, "nresets": 0, "last_reset": False}
 
     def alphabet(self, cfg, state, pos):
         return ALPHABETS[cfg["alphabet"]]
@@ -352,13 +394,19 @@ class AdwinSystem(System):
         tol = cfg.get("tol")
         fam = cfg.get("fam")
         narrow = feed in _NARROW
+        if ev == RESET:
+            return self._reset_step(cfg, state, pos, ctx)
+        kw = {}
         if feed:
             kinds = FEEDS[feed]
-            x_in, x_seen = _wrap(kinds[pos % len(kinds)], ev)
+            kind = kinds[pos % len(kinds)]
+            x_in, x_seen = _wrap(kind, ev)
+            if kind == "fy":
+                kw = {"y_true": 1, "y_pred": 0}
         else:
             x_in = x_seen = ev
         try:
-            det.update(x_in)
+            det.update(x_in, **kw)
             obs = stream_obs(det)
             obs["mean"] = fl(det.mean())
             obs["variance"] = fl(det.variance())
@@ -407,6 +455,9 @@ class AdwinSystem(System):
                 sig=sig,
             )
 
+        state["last_reset"] = False
+        if state["nresets"] and exp["state"] == "drift":
+            ctx.count("drifts_after_explicit_reset")
         if fam:
             ctx.count("fam_%s_steps" % fam)
             if exp["state"] == "drift":
@@ -456,6 +507,58 @@ class AdwinSystem(System):
         return obs
 
 
+def _adwin_reset_step(self, cfg, state, pos, ctx):
+    """The user calls ``reset()`` between two updates ("Intended for use after drift_state == 'drift'", but public
+    and callable at any time).  Documented effect: drift state (and with it the retraining recommendation and
+    samples_since_reset) initialised.  The property's "W shrinks only in an update that reports drift" and "mean() /
+    variance() are those of the W most recent inputs at every step" bind everything else: window, statistics and
+    total_samples are as before the call."""
+    det = state["det"]
+    before = state["model"].state
+    try:
+        det.reset()
+        obs = stream_obs(det)
+        obs["mean"] = fl(det.mean())
+        obs["variance"] = fl(det.variance())
+    except Exception as e:
+        raise Violation(
+            "ADWIN-raises",
+            "ADWIN.reset() raised %s: %s after %d events" % (type(e).__name__, e, pos + 1),
+            expected="no exception",
+            observed=repr(e),
+            sig="ADWIN-reset-raises:%s" % type(e).__name__,
+        )
+    obs["W"] = state["W_obs"]
+    wi = getattr(det, "_window_size", None)
+    obs["W_internal"] = None if wi is None else int(wi)
+    exp = state["model"].reset()
+    bad = _diff(exp, obs, cfg.get("tol"))
+    if bad:
+        raise Violation(
+            "ADWIN-reset",
+            "after reset() (event %d, %d samples so far) ADWIN disagrees with its specification on %s (params %s)"
+            % (pos + 1, exp["total"], bad, cfg["params"]),
+            expected=exp,
+            observed=obs,
+            sig="ADWIN-reset",
+        )
+    ctx.count("explicit_resets")
+    if before == "drift":
+        ctx.mark("explicit_reset_right_after_drift")
+    if state["last_reset"]:
+        ctx.count("explicit_reset_twice_in_a_row")
+    if exp["W"] <= cfg["params"].get("window_size_thresh", 10):
+        ctx.count("explicit_reset_during_warmup")
+    state["nresets"] += 1
+    state["last_reset"] = True
+    if cfg.get("fam"):
+        ctx.count("fam_%s_steps" % cfg["fam"])
+    return obs
+
+
+AdwinSystem._reset_step = _adwin_reset_step
+
+
 def _bits(o):
     """Bit-exact, JSON-able rendering of an observation."""
     out = {}
@@ -490,6 +593,76 @@ def _ywrap(kind, y):
     raise KeyError(kind)
 
 
+# ------------------------------------------------------------------------------------------
+# class labels that are not {0, 1}  (family twin-lab)
+# ------------------------------------------------------------------------------------------
+# A label kind is "<container>:<type>".  _lwrap returns the object handed to update() and the exact value it
+# stands for (a Fraction for numbers -- the value after conversion to the type --, the string, the bool).
+_LCONT = {
+    "sc": lambda x: x,
+    "l1": lambda x: [x],
+    "t1": lambda x: (x,),
+    "a1": lambda x: np.array([x]),
+    "a2": lambda x: np.array([[x]]),
+    "ser": lambda x: pd.Series([x]),
+}
+_LTYPE = {
+    "f": float, "np64": np.float64, "f32": np.float32, "i": int, "i64": np.int64, "i32": np.int32,
+    "s": str, "nps": np.str_, "b": bool, "npb": np.bool_,
+}
+
+
+def _lwrap(kind, v):
+    cont, ty = kind.split(":")
+    x = _LTYPE[ty](v)
+    if ty in ("s", "nps"):
+        seen = str(x)
+    elif ty in ("b", "npb"):
+        seen = bool(x)
+    elif ty in ("i", "i64", "i32"):
+        seen = Fraction(int(x))
+        if seen != v:
+            raise ValueError("label %r does not fit %s" % (v, ty))
+    else:
+        seen = Fraction(float(x))
+    return _LCONT[cont](x), seen
+
+
+_FLK = ["sc:f", "a1:f", "sc:np64", "l1:f", "ser:f", "a2:f", "t1:np64"]  # float64-coded
+_INK = ["sc:i", "a1:i", "sc:i64", "l1:i", "ser:i", "a2:i32", "t1:i"]  # integer-coded
+_F32K = ["sc:f32", "a1:f32", "a2:f32", "l1:f32"]
+# name: (classes, kinds of y_true, kinds of y_pred)
+LABELS = {
+    # float-coded class labels, neighbouring classes 1 apart at magnitude 2.5e5 and 1e8 (relative distance 4e-6 / 1e-8)
+    "big": ([250000.0, 250001.0, 250002.0], _FLK, _FLK),
+    "e8": ([100000000.0, 100000001.0, 100000002.0], _FLK, _FLK),
+    # the same, float targets against integer predictions and vice versa
+    "e8fi": ([100000000, 100000001, 100000002], _FLK, _INK),
+    "e8if": ([-100000000, -99999999, 100000000], _INK, _FLK),
+    "e8i": ([100000000, 100000001, 100000002], _INK, _INK),
+    # tiny labels: absolute distances 1e-9
+    "nano": ([1e-09, 2e-09, 3e-09], _FLK, _FLK),
+    "near0": ([0.0, 1e-09, -1e-09], _FLK, _FLK),
+    # adjacent doubles around 1, and 1 + 1e-9
+    "near1": ([1.0, 1.0000000000000002, 1.000000001], _FLK, _FLK),
+    # fractional and negative labels (truncation to int would merge them)
+    "frac": ([0.25, 0.5, 0.75, -0.25], _FLK, _FLK),
+    "neg": ([-1, -2, 3], _INK, _FLK),
+    # float32-coded: adjacent float32 integers at 2^24, and small dyadic ones
+    "f32": ([16777214.0, 16777215.0, 16777216.0, 0.5], _F32K, _F32K),
+    # float64 targets against float32 predictions: 0.1 and 0.7 are different numbers in the two precisions
+    # (an "agreeing" prediction then is NOT equal under ==), 2.5 and 3.0 are the same
+    "x32": ([0.1, 2.5, 0.7, 3.0], _FLK, _F32K),
+    "str": (["a", "b", "ab", "B"], ["sc:s", "a1:s", "sc:nps", "l1:s", "ser:s", "a2:s"], ["l1:s", "sc:s", "ser:s", "a1:nps", "t1:s"]),
+    "bool": ([False, True], ["sc:b", "a1:b", "sc:npb", "l1:b", "ser:b"], ["a2:b", "sc:npb", "sc:b", "t1:b"]),
+}
+
+
+def _np_isclose(a, b):
+    """numpy.isclose(a, b) with its default tolerances, in exact arithmetic (region counter only)."""
+    return abs(a - b) <= Fraction(1, 10**8) + Fraction(1, 10**5) * abs(b)
+
+
 class AccTwinSystem(System):
     name = "ADWINAccuracy"
 
@@ -498,7 +671,35 @@ class AccTwinSystem(System):
         return {"acc": ADWINAccuracy(**p), "ref": ADWIN(**p)}
 
     def alphabet(self, cfg, state, pos):
-        return [0, 1]
+        return [0, 1, RESET] if cfg.get("resets") else [0, 1]
+
+    def _reset_step(self, cfg, state, pos, ctx):
+        try:
+            state["ref"].reset()
+            state["acc"].reset()
+            exp, obs = self._observe(state["ref"]), self._observe(state["acc"])
+        except Exception as e:
+            raise Violation(
+                "ADWINAccuracy-raises",
+                "reset() raised %s: %s" % (type(e).__name__, e),
+                expected="no exception",
+                observed=repr(e),
+                sig="ADWINAccuracy-reset-raises:%s" % type(e).__name__,
+            )
+        be, bo = _bits(exp), _bits(obs)
+        if be != bo:
+            raise Violation(
+                "ADWINAccuracy-twin",
+                "after reset() ADWINAccuracy(**p) differs from ADWIN(**p) on %s (event %d, p = %s)"
+                % (sorted(k for k in be if be[k] != bo.get(k)), pos + 1, cfg["params"]),
+                expected=be,
+                observed=bo,
+                sig="ADWINAccuracy-twin:reset",
+            )
+        ctx.count("acc_twin_resets")
+        if cfg.get("fam"):
+            ctx.count("fam_%s_steps" % cfg["fam"])
+        return bo
 
     @staticmethod
     def _observe(det):
@@ -508,9 +709,17 @@ class AccTwinSystem(System):
         return o
 
     def step(self, cfg, state, ev, pos, ctx):
+        if ev == RESET:
+            return self._reset_step(cfg, state, pos, ctx)
+        if cfg.get("labels"):
+            return self._label_step(cfg, state, ev, pos, ctx)
         # ev = 1: the prediction agrees with the label.  Both label values occur.
         y_true = pos % 2
         y_pred = y_true if ev else 1 - y_true
+        kw = {}
+        if cfg.get("xjunk") and pos % 3 != 2:
+            # a feature row handed over together with the labels ("Not used for this accuracy-based ADWIN")
+            kw = {"X": np.array([[0.3, 1.5 + pos]])} if pos % 3 else {"X": pd.DataFrame({"u": [0.3], "v": [-1.0]})}
         if cfg.get("yfeed"):
             # the two labels arrive in the containers / dtypes _validate_y accepts (one observation each)
             kinds = YFEEDS[cfg["yfeed"]]
@@ -533,7 +742,7 @@ class AccTwinSystem(System):
                 sig="ADWIN-raises:%s" % type(e).__name__,
             )
         try:
-            state["acc"].update(y_true=y_true_in, y_pred=y_pred_in)
+            state["acc"].update(y_true=y_true_in, y_pred=y_pred_in, **kw)
             obs = self._observe(state["acc"])
         except Exception as e:
             raise Violation(
@@ -544,13 +753,17 @@ class AccTwinSystem(System):
                 observed=repr(e),
                 sig="ADWINAccuracy-update-raises:%s" % type(e).__name__,
             )
+        return self._compare(cfg, exp, obs, pos, ctx, "")
+
+    def _compare(self, cfg, exp, obs, pos, ctx, what):
+        fam = cfg.get("fam")
         be, bo = _bits(exp), _bits(obs)
         if be != bo:
             bad = sorted(k for k in be if be[k] != bo.get(k))
             raise Violation(
                 "ADWINAccuracy-twin",
-                "ADWINAccuracy(**p) differs from ADWIN(**p) on the indicator stream on %s after %d samples (p = %s)"
-                % (bad, pos + 1, cfg["params"]),
+                "ADWINAccuracy(**p) differs from ADWIN(**p) on the indicator stream on %s after %d samples (p = %s)%s"
+                % (bad, pos + 1, cfg["params"], what),
                 expected=be,
                 observed=bo,
                 sig="ADWINAccuracy-twin",
@@ -563,6 +776,55 @@ class AccTwinSystem(System):
             if obs["state"] == "drift":
                 ctx.count("fam_%s_drifts" % fam)
         return bo
+
+    def _label_step(self, cfg, state, ev, pos, ctx):
+        """ev = 1: the prediction names the same class as the label; ev = 0: another class.  The reference ADWIN is
+        fed 1{y_true == y_pred} for the two values *as the detector receives them* (exact comparison of the numbers
+        after conversion to their types; strings and booleans by ==)."""
+        classes, tk, pk = LABELS[cfg["labels"]]
+        n = len(classes)
+        ci = (pos + pos // n) % n
+        cj = ci if ev else (ci + 1 + pos % (n - 1)) % n
+        kt = tk[pos % len(tk)]
+        kp = pk[(pos // len(pk) + pos) % len(pk)]
+        y_true_in, seen_t = _lwrap(kt, classes[ci])
+        y_pred_in, seen_p = _lwrap(kp, classes[cj])
+        ind = int(seen_t == seen_p)
+        what = " [labels %r as %s / %r as %s, indicator %d]" % (classes[ci], kt, classes[cj], kp, ind)
+        try:
+            state["ref"].update(ind)
+            exp = self._observe(state["ref"])
+        except Exception as e:
+            raise Violation(
+                "ADWIN-raises",
+                "ADWIN(%s).update(%r) raised %s: %s after %d samples" % (cfg["params"], ind, type(e).__name__, e, pos + 1),
+                expected="no exception",
+                observed=repr(e),
+                sig="ADWIN-raises:%s" % type(e).__name__,
+            )
+        try:
+            state["acc"].update(y_true_in, y_pred_in)
+            obs = self._observe(state["acc"])
+        except Exception as e:
+            raise Violation(
+                "ADWINAccuracy-raises",
+                "ADWINAccuracy(%s).update(%r, %r) raised %s: %s (ADWIN on the indicator accepts the sample)"
+                % (cfg["params"], y_true_in, y_pred_in, type(e).__name__, e),
+                expected=_bits(exp),
+                observed=repr(e),
+                sig="ADWINAccuracy-update-raises:%s" % type(e).__name__,
+            )
+        out = self._compare(cfg, exp, obs, pos, ctx, what)
+        if isinstance(seen_t, Fraction):
+            if not ind and _np_isclose(seen_t, seen_p):
+                ctx.count("labels_unequal_but_isclose")
+            if ev and not ind:
+                ctx.count("labels_same_class_unequal_across_precisions")
+        if ind:
+            ctx.count("label_hits")
+        else:
+            ctx.count("label_misses")
+        return out
 
 
 SYSTEMS = {"ADWIN": AdwinSystem(), "ADWINAccuracy": AccTwinSystem()}
@@ -698,7 +960,7 @@ def _fam_cfg(fam, pname, alpha, L, feed=None):
     }
     if feed:
         cfg["feed"] = feed
-    if alpha not in ("b", "t") or feed == "f32":
+    if alpha not in ("b", "t", "bR", "tR") or feed == "f32":
         cfg["tol"] = _tol(alpha, L, feed)
     return cfg
 
@@ -721,9 +983,9 @@ def _fam_dfs(fam, pname, alpha, depth, split, feed=None):
     return out
 
 
-def _fam_dev(fam, pname, alpha, dname, default, k, feed=None):
+def _fam_dev(fam, pname, alpha, dname, default, k, feed=None, menu=None):
     cfg = _fam_cfg(fam, pname, alpha, len(default), feed)
-    menu = ALPHABETS[alpha]
+    menu = ALPHABETS[alpha] if menu is None else menu
     n = len(default)
     task = {
         "system": "ADWIN",
@@ -733,7 +995,7 @@ def _fam_dev(fam, pname, alpha, dname, default, k, feed=None):
         "menu": menu,
         "k": k,
         "label": "ADWIN|%s|%s|%s|L%d|k%d" % (fam, cfg["id"], dname, n, k),
-        "cost": (n * (len(menu) - 1)) ** k // (2 if k > 1 else 1) * n // 3 + n,
+        "cost": (n * max(1, len(menu) - 1)) ** k // (2 if k > 1 else 1) * n // 3 + n,
         "validate_every": 97,
     }
     if k <= 1:
@@ -767,17 +1029,27 @@ FAMILIES_WITH_DRIFTS = [
     "par-d1e-9c", "par-M64", "par-M64c", "par-s0", "par-s0c", "par-s5w2", "par-s5w2c",
     "feed-cont", "feed-df", "feed-f32", "feed-f32after64", "feed-int", "feed-auto",
     "long-default", "twin-par", "twin-pardev", "twin-long-default",
+    # second batch
+    "val-giga", "val-lvl8", "valdev-giga", "valdev-lvl8",
+    "feed-cont2", "feed-bool",
+    "reset", "resetdev", "reset-long-default", "twin-reset",
 ]
 # families that can never cut (that is their point): only their step counter is demanded
-FAMILIES_STATS_ONLY = ["val-tiny", "valdev-tiny", "par-nstBig", "par-wstBig", "par-sBig", "twin-ycont"]
-# int8/uint8/int16/int32-typed streams: a genuine defect is expected on the pinned tree (the running sums wrap)
+FAMILIES_STATS_ONLY = ["val-tiny", "valdev-tiny", "par-nstBig", "par-wstBig", "par-sBig", "twin-ycont",
+                       "val-nano", "valdev-nano"]
+# int8/uint8/int16/int32-typed streams (the running sums used to wrap: fix 27d654b; the family guards the repair)
 FAMILIES_NARROW = ["feed-narrow"]
+# ADWINAccuracy on class labels other than {0, 1}
+FAMILIES_LABELS = ["twin-lab-" + n for n in LABELS]
+FAMILIES_WITH_DRIFTS += FAMILIES_LABELS
 
-VAL_ALPHAS = ["neg", "frac", "mix", "lvl6", "lvl7", "nlvl7", "tiny"]
+VAL_ALPHAS = ["neg", "frac", "mix", "lvl6", "lvl7", "nlvl7", "tiny", "nano", "giga", "lvl8"]
 PAR_SETS = ["d1e-9", "d1e-9c", "M64", "M64c", "nstBig", "wstBig", "sBig", "s0", "s0c", "s5w2", "s5w2c"]
 XDEPTH = {
-    "quick": {"val": 8, "par_b": 11, "par_t": 8, "feed": 8, "narrow": 5, "twin": 12, "ytwin": 10},
-    "thorough": {"val": 10, "par_b": 14, "par_t": 9, "feed": 9, "narrow": 6, "twin": 15, "ytwin": 12},
+    "quick": {"val": 8, "par_b": 11, "par_t": 8, "feed": 8, "narrow": 5, "twin": 12, "ytwin": 10,
+              "reset_b": 9, "reset_t": 7, "lab": 10, "rtwin": 9},
+    "thorough": {"val": 10, "par_b": 14, "par_t": 9, "feed": 9, "narrow": 6, "twin": 15, "ytwin": 12,
+                 "reset_b": 11, "reset_t": 8, "lab": 13, "rtwin": 11},
 }
 
 # ADWINAccuracy: every unusual parameter forwarded
@@ -862,7 +1134,7 @@ def _extension_tasks(tier):
         out.append(
             {
                 "system": "ADWINAccuracy",
-                "cfg": {"id": "twiny%d" % ci, "params": TWIN_PARAMS[ci], "fam": "twin-ycont", "yfeed": "ycont"},
+                "cfg": {"id": "twiny%d" % ci, "params": TWIN_PARAMS[ci], "fam": "twin-ycont", "yfeed": "ycont", "xjunk": ci == 4},
                 "prefix": [],
                 "depth": x["ytwin"],
                 "label": "ADWINAccuracy|twin-ycont|twiny%d" % ci,
@@ -885,6 +1157,92 @@ def _extension_tasks(tier):
         if yfeed:
             t["cfg"]["yfeed"] = yfeed
         out += _thirds(t)
+    out += _extension_tasks_2(tier)
+    return out
+
+
+def _extension_tasks_2(tier):
+    """Second batch of round-3 families (scales at the ends of 1e-9 ... 1e8 are in VAL_ALPHAS)."""
+    x = XDEPTH[tier]
+    out = []
+    # -- more containers / dtypes ---------------------------------------------------------------
+    out += _fam_dfs("feed-cont2", "hot1", "frac", x["feed"], 1, "cont2")
+    out += _fam_dev("feed-cont2", "hot0", "mix", "stair", _stair("mix"), 1, "cont2")
+    out += _fam_dfs("feed-bool", "hot1", "b", x["par_b"], 2, "bool")
+    out += _fam_dfs("feed-bool", "hot3", "b", x["par_b"], 2, "bool")
+    out += _fam_dev("feed-bool", "hot0", "b", "block", _block("b"), 1, "bool")
+    out += _fam_dfs("feed-f32", "hot3", "giga", x["feed"], 1, "f32")
+    out += _fam_dev("feed-f32", "hot0", "giga", "stair", _stair("giga"), 1, "f32")
+    if tier == "thorough":
+        # four epochs under the default parameters (checks at 32, 64, ..., 384)
+        out += _fam_dev("long-default", "default", "t", "stair96x4", [0] * 96 + [1] * 96 + [5] * 96 + [0] * 96, 1)
+        out += _fam_dev("long-default", "default", "unit", "stair96x4", [0.05] * 96 + [0.5] * 96 + [0.95] * 96 + [0.05] * 96, 1)
+    # -- explicit reset() events -------------------------------------------------------------------
+    for pn in ("hot1", "hot2", "hot3"):
+        out += _fam_dfs("reset", pn, "bR", x["reset_b"], 2)
+    for pn in ("hot1", "hot4"):
+        out += _fam_dfs("reset", pn, "tR", x["reset_t"], 1)
+    #   long histories in which every choice of <= k samples is replaced by a reset() call (k = 2: twice in a row,
+    #   before and after a cut, ...), or by a reset() call or another value (k = 1)
+    b96 = _block("b")
+    for pn, menu, k in (("hot0", [RESET], 2), ("hot1", [0, 1, RESET], 1), ("hot3", [0, 1, RESET], 1), ("hot2", [RESET], 2 if tier == "thorough" else 1)):
+        out += _fam_dev("resetdev", pn, "bR", "block", b96, k, menu=menu)
+    out += _fam_dev("reset-long-default", "default", "tR", "stair64", _stair("t", 64), 1, menu=[RESET])
+    # -- ADWINAccuracy on class labels other than {0, 1} -------------------------------------------
+    for name in LABELS:
+        fam = "twin-lab-" + name
+        for prefix in itertools.product((0, 1), repeat=2):
+            out.append(
+                {
+                    "system": "ADWINAccuracy",
+                    "cfg": {"id": "twinlab:%s" % name, "params": TWIN_PARAMS[1], "fam": fam, "labels": name},
+                    "prefix": list(prefix),
+                    "depth": x["lab"] - 2,
+                    "label": "ADWINAccuracy|%s|twinlab:%s|d%d|%s" % (fam, name, x["lab"], "".join(map(str, prefix))),
+                    "cost": 2 ** (x["lab"] - 2) * 2,
+                }
+            )
+        out.append(
+            {
+                "system": "ADWINAccuracy",
+                "cfg": {"id": "twinlabdev:%s" % name, "params": TWIN_PARAMS[2], "fam": fam, "labels": name},
+                "mode": "dev",
+                "default": [1] * 32 + [0] * 32 + [1] * 32,
+                "menu": [0, 1],
+                "k": 1,
+                "label": "ADWINAccuracy|%s|twinlabdev:%s|L96|k1" % (fam, name),
+                "cost": 96 * 96,
+                "validate_every": 97,
+            }
+        )
+    # default parameters on a long history (the default period of 32 is really passed) for the numeric label sets
+    # whose classes an approximate comparison would merge
+    for name in ("big", "e8fi", "near0", "x32"):
+        t = {
+            "system": "ADWINAccuracy",
+            "cfg": {"id": "twinlablong:%s" % name, "params": {}, "fam": "twin-lab-" + name, "labels": name},
+            "mode": "dev",
+            "default": [1] * 64 + [0] * 64 + [1] * 64,
+            "menu": [0, 1],
+            "k": 1,
+            "label": "ADWINAccuracy|twin-lab-%s|twinlablong:%s|L%d|k1" % (name, name, LONG),
+            "cost": LONG * LONG // 3,
+            "validate_every": 97,
+        }
+        out += _thirds(t)
+    # -- ADWINAccuracy twin with reset() events ------------------------------------------------------
+    for ci in (0, 1, 3):
+        for first in (0, 1, RESET):
+            out.append(
+                {
+                    "system": "ADWINAccuracy",
+                    "cfg": {"id": "twinreset%d" % ci, "params": TWIN_PARAMS[ci], "fam": "twin-reset", "resets": True},
+                    "prefix": [first],
+                    "depth": x["rtwin"] - 1,
+                    "label": "ADWINAccuracy|twin-reset|twinreset%d|d%d|%s" % (ci, x["rtwin"], first),
+                    "cost": 3 ** (x["rtwin"] - 1) * 2,
+                }
+            )
     return out
 
 
@@ -941,6 +1299,20 @@ REQUIRED = [
 ]
 REQUIRED += ["fam_%s_steps" % f for f in FAMILIES_WITH_DRIFTS + FAMILIES_STATS_ONLY + FAMILIES_NARROW]
 REQUIRED += ["fam_%s_drifts" % f for f in FAMILIES_WITH_DRIFTS]
+REQUIRED += [
+    # explicit reset() calls at the moments that matter
+    "explicit_resets",
+    "explicit_reset_right_after_drift",
+    "explicit_reset_twice_in_a_row",
+    "explicit_reset_during_warmup",
+    "drifts_after_explicit_reset",
+    "acc_twin_resets",
+    # label families: both outcomes, different classes an isclose() would merge, equal classes that differ across precisions
+    "label_hits",
+    "label_misses",
+    "labels_unequal_but_isclose",
+    "labels_same_class_unequal_across_precisions",
+]
 
 
 def describe(tier):
@@ -982,10 +1354,27 @@ def describe(tier):
                 "feed": {"containers_and_dtypes": FEEDS, "dfs_depth": XDEPTH[tier]["feed"], "dev": "L=96 staircase, k<=1",
                          "narrow_integer_dfs_depth": XDEPTH[tier]["narrow"]},
                 "long": "ADWIN() with default parameters, L=192 (lo^64 mid^64 hi^64 over {0,1,5} and {0.05,0.5,0.95}; "
-                "0^64 1^64 0^64), k<=1",
+                "0^64 1^64 0^64), k<=1%s" % ("; L=384 (lo^96 mid^96 hi^96 lo^96), k<=1" if tier == "thorough" else ""),
                 "twin": {"extra_parameter_sets": TWIN_PARAMS_X, "depth": XDEPTH[tier]["twin"], "dev": "1^32 0^32 1^32, k<=1",
                          "label_containers": YFEEDS, "label_container_depth": XDEPTH[tier]["ytwin"],
                          "default_parameters": "L=192 (1^64 0^64 1^64), k<=1, plain and container-rotated labels"},
+                "second_batch": {
+                    "scales": "value alphabets nano (1e-9), giga (scale and spread 1e8), lvl8 (level 1e8, spread 5) in val / valdev "
+                    "as above; giga also float32-typed",
+                    "feed": "cont2 / bool feeds (see containers_and_dtypes): dfs depth %d (bool: %d under hot1 and hot3), "
+                    "L=96 k<=1" % (XDEPTH[tier]["feed"], XDEPTH[tier]["par_b"]),
+                    "reset": "reset() as an event: dfs {0,1,R} depth %d x (hot1, hot2, hot3), {0,1,5,R} depth %d x (hot1, hot4); "
+                    "0^32 1^32 0^32 with <= 2 samples replaced by reset() (hot0%s), <= 1 replaced by a reset() or the other value "
+                    "(hot1, hot3%s); default parameters, 0^64 1^64 5^64 with <= 1 sample replaced by reset()"
+                    % (XDEPTH[tier]["reset_b"], XDEPTH[tier]["reset_t"], ", hot2" if tier == "thorough" else "",
+                       "" if tier == "thorough" else "; reset() only: hot2"),
+                    "twin_labels": {
+                        "label_sets (classes, kinds of y_true, kinds of y_pred)": {k: list(v) for k, v in LABELS.items()},
+                        "dfs_depth": XDEPTH[tier]["lab"],
+                        "dev": "1^32 0^32 1^32 (1 = prediction names the label's class), k<=1; default parameters L=192 k<=1 for big, e8fi, near0, x32",
+                    },
+                    "twin_reset": "agreement bits and reset() events, depth %d, twin parameter sets 0, 1, 3" % XDEPTH[tier]["rtwin"],
+                },
             },
         },
         "explanation": "states = tree nodes; traces_validated_against_impl = maximal histories on which the real "
@@ -1001,12 +1390,19 @@ def describe(tier):
             "legacy families: values {0,1,5}; windows up to 96 samples; <= 2 deviations from the long default histories",
             "round-3 families: the value alphabets listed under bounds (3 symbols each), windows up to 192 samples, "
             "k <= 1; their tolerances scale with the data (mean: abs 1e-12*S, variance: abs 1e-12*S*R, decisions within "
-            "max(1e-9, 1e-12*S/R) undecidable; S = max|x|, R = spread; float32-typed streams: relative 4*L*2^-23, decisions "
-            "within 1e-4 undecidable, because the detector's running sums keep the dtype of the input)",
+            "max(1e-9, 1e-12*S/R) undecidable; S = max|x|, R = spread); float32- and integer-typed streams get the same "
+            "tolerances, because the detector documents double-precision running sums whatever the input dtype",
             "every number of a value alphabet is handed to the model as the exact rational the detector receives "
             "(float32 / integer kinds: the value after conversion to that dtype)",
-            "delta = 0 (accepted by the constructor, division by zero in the bound), float16 and boolean inputs, and "
-            "k >= 2 on the L=192 histories are not explored",
+            "delta = 0 (accepted by the constructor, division by zero in the bound), float16 and object-dtype inputs, "
+            "streams mixing magnitudes more than ~1e3 apart (e.g. one 1e8 outlier in unit-scale data: after the outlier "
+            "leaves the window a correct one-pass implementation keeps an absolute error of ~1e8*2^-52, so only a tolerance "
+            "too weak to be useful would be sound) and k >= 2 on the L=192 histories are not explored",
+            "reset() called by the user initialises drift_state, retraining_recs and samples_since_reset and nothing else "
+            "(the property lets W shrink only in an update that reports drift and total_samples counts every sample)",
+            "ADWINAccuracy label families: 1{y_true == y_pred} is the == of the two values as received (numbers compared "
+            "exactly after conversion to their dtype, so float32(0.1) != 0.1 while 2.5 == float32(2.5) == 2.5; 1e8 == "
+            "int(1e8)); NaN labels, labels of mixed string / number type and integer labels beyond 2^53 are not explored",
             "the deviation-free history of an L=192 family is executed once per third of the deviation positions",
         ],
     }
